@@ -117,7 +117,7 @@ func newC09env() (*c09env, error) {
 	}
 	for b := 0; b < 2; b++ {
 		meas := Meas(fmt.Sprintf("build-%d", b))
-		gsb := GoldenSpec{Snp: map[uint32][]byte{2: meas}, Digest: Meas(fmt.Sprintf("fw-%d", b)), Timestamp: time.Date(2025, 2, 1, 0, 0, 0, 0, time.UTC), ClSpec: 7, Cert: m.SignCert.Raw, Svn: 1}
+		gsb := GoldenSpec{Snp: map[uint32][]byte{2: meas}, Digest: Meas(fmt.Sprintf("fw-%d", b)), Timestamp: time.Date(2025, 2, 1, 0, 0, 0, 0, time.UTC), ClSpec: 7, Cert: m.SignCert.Raw, Svn: uint32(3 - b)} // two builds, two security versions
 		eb := Endorse(gsb.Proto(), m.S)
 		good, _ := proto.Marshal(eb)
 		bad := proto.Clone(eb).(*epb.VMLaunchEndorsement)
@@ -524,6 +524,52 @@ func RunC09(run *vk.Run) {
 			run.Violation("not-reentrant:download-failure-remembered", fmt.Sprintf("after one failed download for a measurement, the same validator gives accept=%v for that report once the object is served (%v); a fresh validator at the same moment gives accept=%v", second == nil, second, fresh == nil), nil)
 		}
 		run.Case("successive-download:outage-then-served", true)
+	}
+	// ... and the other way round: an endorsement that was served and accepted once is not a fact about
+	// later reports either -- when the object is gone (withdrawn, or the bucket fails), the same validator
+	// gives the report what a fresh validator gets at that moment
+	{
+		good := env.attOf["endorsed"].GetReport().GetMeasurement()
+		o := env.roots()
+		g := &MapGetter{Body: map[string][]byte{snpURL(good): env.eb}}
+		o.Getter = g
+		one := verify.SNPValidateFunc(o)
+		a := env.attOf["endorsed"]
+		first := one(a, nil)
+		delete(g.Body, snpURL(good)) // withdrawn / outage
+		for k, att := range []*spb.Attestation{a, env.attOf["unendorsed"], a} {
+			later := one(att, nil)
+			fo := env.roots()
+			fo.Getter = &MapGetter{Body: map[string][]byte{}}
+			fresh := verify.SNPValidateFunc(fo)(att, nil)
+			if (later == nil) != (fresh == nil) {
+				run.Violation("not-reentrant:earlier-download-reused", fmt.Sprintf("a validator that downloaded and accepted an endorsement once (accept=%v) gives accept=%v for call %d after the object is no longer served (%v); a fresh validator at the same moment gives accept=%v (%v)", first == nil, later == nil, k+2, later, fresh == nil, fresh), nil)
+				break
+			}
+		}
+		run.Case("successive-download:served-then-outage", true)
+	}
+	// one SevValidate options value used for a fleet of two endorsed builds (different security versions),
+	// in both orders and repeatedly: each attestation gets what it gets with an options value of its own
+	for _, order := range [][]int{{0, 1, 0, 1}, {1, 0, 1, 0}, {0, 0, 1, 1, 0}} {
+		for _, mk := range []struct {
+			name string
+			f    func() *gtb.SevValidateOptions
+		}{{"options without a base policy", env.sevOptNo}, {"options with a base policy and a named count", env.sevOptBase}} {
+			shared := mk.f()
+			ctx := fx.Ctx(nil, false, false)
+			for k, b := range order {
+				for _, kind := range []string{"endorsed", "unendorsed"} {
+					att := env.attBuild[b][kind]
+					got := gtb.SevValidate(ctx, att, shared)
+					alone := gtb.SevValidate(ctx, att, mk.f())
+					if (got == nil) != (alone == nil) {
+						run.Violation("not-reentrant:sevvalidate-options-history", fmt.Sprintf("SevValidate with one options value (%s) used for two endorsed builds in order %v: call %d (build %d, %s endorsement) gives accept=%v (%v); with an options value of its own it gives accept=%v", mk.name, order, k+1, b, kind, got == nil, got, alone == nil), nil)
+					}
+				}
+			}
+			run.Case(fmt.Sprintf("sevvalidate-history:%v:%s", order, mk.name), true)
+		}
 	}
 	// options value must still give isolated results afterwards (successive use)
 	// free-running stress under the race detector (separate -race build)
